@@ -191,7 +191,7 @@ def mk_test(name, kind, layer=None, level=None, exc=0, out=None, count=None, bod
             elif kind == SUBFAIL2:
                 with self.subTest(i=1):
                     self.fail('sub1')
-                with self.subTest(i=2):
+                with self.subTest(x=0.5):            # parameters may contain dots
                     self.fail('sub2')
             elif kind == SYSEXIT:
                 raise SystemExit(3)
